@@ -63,10 +63,20 @@ PROPS = {
     },
     "C17": {
         "translate": True,
+        "gens": ["C10", "C17"],
         "diff_is_violation": False,
         "trivial": ["bad-request", "err", "bad-network"],
         "rule": "streams: (1) corpus; (2) did:<method>:<segments> over 10 method spellings (case variants, near misses, dotless/dotted i) x 17 network names (valid, upper case, too long, non-alphanumeric, Kelvin sign, with colon) x 17 tag shapes (valid, upper case, 0X, no prefix, lengths 62..68, non-hex, trailing colon, percent triple, empty) x 11 trailing parts (path/query/fragment/whitespace/delimiters), prefix variants; EXHAUSTIVE network names of length <= 3 over a 9-symbol alphabet through NetworkName::try_from and inside a DID; (3) IotaDID::new over random / all-zero / all-ff tags x 12 network names; random valid DIDs with random letter case; Eq on random pairs and the default-network spellings. Oracle: method, network rule, tag shape, lowercase, normal form (default network omitted), no URL parts, re-parse, JSON round trip, TryFrom<CoreDID>, new exposes bytes and name, Eq iff network and tag bytes. Non-trivial = reply not err/bad-request/bad-network; distinct request lines.",
         "trusted_base": ["str::to_lowercase (Unicode) is computed by the harness and checked against the implementation; the model starts from the lower-cased bytes", "prefix-hex / hex crates (modelled concretely, tied by correspondence)", "builds on the C10 DID model (third-party parser transliterated)"],
         "assumptions": ["tag_eq_iff_bytes assumes the model input has no upper-case ASCII letter (true of every to_lowercase output)"],
+    },
+    "C01": {
+        "translate": True,
+        "gens": ["C11"],
+        "diff_is_violation": ["compact", "flat", "general"],
+        "trivial": ["bad-request", "err", "err err"],
+        "rule": "streams: (1) corpus; (2) decision table: 7 protected-header shapes (b64 absent/true/false with and without crit, no alg, extras, empty crit) x 6 payloads (text, JSON, with '.', empty, binary, base64-looking) x placement {attached, detached, both, neither} x signature {good toy-MAC, bad MAC, non-base64, non-canonical base64 trailing bits, other key} x key.alg {absent, equal, different}, as compact tokens and — at member level — as flattened tokens with 4 unprotected-header shapes incl. alg only in the unprotected header; general tokens with 2 signatures over 7 header pairs; (3)+(4) 12 (thorough 120) verifying compact tokens with random payloads: EVERY single-bit flip, 3 byte substitutions and the deletion at EVERY position; a small real-Ed25519 stream (implementation-only oracle, labelled as a test of the crypto crates). The harness hands the decoder a recording verifier and compares the bytes it receives (alg, signing input, decoded signature) and the claims with the model and with an independent strict base64url decoder. Non-trivial = decoded (not err/bad-request); distinct request lines.",
+        "trusted_base": ["header JSON -> header is a parameter P of the theorems; in the run it is a table computed by the library's own serde layer (JwsHeader::from_slice + accessors)", "signature scheme V is a parameter (toy MAC in the run; real Ed25519 only in the implementation-only stream); unforgeability is not proved", "JSON envelope of flattened/general serializations handled at member level (serde layer by correspondence)"],
+        "assumptions": [],
     },
 }
